@@ -55,7 +55,9 @@ theorem replace_model {c : Cfg} (hc : c.Valid) (ms : List (Model Sym)) (x : Code
   refine ⟨h1, h2, fun i hij => h3 i ?_ rfl⟩
   rw [List.getElem?_set_ne (Ne.symm hij)]
 
-/-- **Changing the data inside one chunk** (two coders whose chunk lists have the same length
+/-- *(Superseded by `flip_bits_in_chunk` / `flip_bits_in_chunk_schedule`, which state the
+    hypothesis on the data's bit positions instead of on the decoder-derived chunk lists; kept
+    as the abstract form.)*  **Changing the data inside one chunk** (two coders whose chunk lists have the same length
     and agree everywhere except at position `j` – e.g. after flipping bits that belong to
     chunk `j`): at most the symbol at position `j` changes, and never whether / when the coder
     runs out of data. -/
@@ -184,27 +186,129 @@ theorem flip_bits_in_chunk {c : Cfg} (hc : c.Valid) (ms : List (Model Sym)) (x x
 
 /-- A coder fresh from `from_binary` / `from_compressed` has an empty bit buffer (`k = 0`: all
     chunk positions are bits of words) and its compressed stack is the bottom part of the
-    data: the words on top of it (`D`) went into the remainders head (for `from_compressed`
-    data the topmost of them carries the marker bit, for `from_binary` data a leading 1 is
-    supplied by the coder). -/
-theorem fresh_coder_data {c : Cfg} (hc : c.Valid) (data : List Nat) (hd : Words c.W data) (x : Coder)
-    (h : fromBinary c data = some x ∨ fromCompressed c data = some x) :
-    Inv c x ∧ 2^0 ≤ x.heads.compressed ∧ x.heads.compressed < 2^(0 + 1) ∧
-    ∃ D, data = D ++ x.compressed := by
+    data, `data = D ++ compressed`: the top words `D` went into the remainders head.
+    `from_binary` (which supplies a leading 1 itself) takes exactly `⌈(S-W-P)/W⌉` words;
+    `from_compressed` (whose topmost word carries the marker bit and must be non-zero) takes at
+    least one and at most `1 + ⌈(S-W-P)/W⌉`.  So `Pos.word i b` of a fresh coder is bit `b` of
+    the data word number `D.length + i` from the top. -/
+theorem fresh_coder_data {c : Cfg} (hc : c.Valid) (data : List Nat) (hd : Words c.W data) (x : Coder) :
+    (fromBinary c data = some x →
+      Inv c x ∧ 2^0 ≤ x.heads.compressed ∧ x.heads.compressed < 2^(0 + 1) ∧
+      ∃ D, data = D ++ x.compressed ∧ c.S - c.W - c.P ≤ c.W * D.length ∧
+        (D.length ≠ 0 → c.W * (D.length - 1) < c.S - c.W - c.P)) ∧
+    (fromCompressed c data = some x →
+      Inv c x ∧ 2^0 ≤ x.heads.compressed ∧ x.heads.compressed < 2^(0 + 1) ∧
+      ∃ D, data = D ++ x.compressed ∧ 1 ≤ D.length ∧
+        (2 ≤ D.length → c.W * (D.length - 2) < c.S - c.W - c.P)) := by
   have hP := (CValid.of_valid hc).precOk
-  rcases h with h | h
-  · obtain ⟨hI, _, D, hD, hfin⟩ := fromBinary_spec hP hd h
+  refine ⟨fun h => ?_, fun h => ?_⟩
+  · obtain ⟨hI, _, _, _, hfin⟩ := fromBinary_spec hP hd h
     have h1 : x.heads.compressed = 1 := by
       by_cases h1 : x.heads.compressed = 1
       · exact h1
       · have := hfin [] []; simp [intoBinary, h1] at this
-    exact ⟨hI, by rw [h1]; decide, by rw [h1]; decide, D, hD⟩
-  · obtain ⟨hI, _, D, hD, hfin⟩ := fromCompressed_spec hP hd h
+    exact ⟨hI, by rw [h1]; decide, by rw [h1]; decide, fromBinary_consumed hP hd h⟩
+  · obtain ⟨hI, _, _, _, hfin⟩ := fromCompressed_spec hP hd h
     have h1 : x.heads.compressed = 1 := by
       by_cases h1 : x.heads.compressed = 1
       · exact h1
       · have := hfin [] []; simp [intoCompressed, h1] at this
-    exact ⟨hI, by rw [h1]; decide, by rw [h1]; decide, D, hD⟩
+    exact ⟨hI, by rw [h1]; decide, by rw [h1]; decide, fromCompressed_consumed hP hd h⟩
+
+/-- **Structure of the chunks, per-symbol precisions**: for any precisions `Ps` (each `≤ W`),
+    chunk `i` consists of exactly `Ps[i]` bit positions, all of them real bits of the data, none
+    twice, and no data bit belongs to two chunks. -/
+theorem chunk_structureV (W : Nat) (Ps : List Nat) (hPs : ∀ P ∈ Ps, P ≤ W) (k m : Nat) :
+    (∀ (i : Nat) (ps : List Pos), (chunkPosV W Ps (headPos k) 0 m)[i]? = some ps →
+      Ps[i]? = some ps.length ∧ ps.Nodup ∧
+      ∀ q ∈ ps, (∃ b, q = .head b ∧ b < k) ∨ ∃ j t, q = .word j t ∧ j < m ∧ t < W) ∧
+    (∀ (i j : Nat) (a b : List Pos), i ≠ j → (chunkPosV W Ps (headPos k) 0 m)[i]? = some a →
+      (chunkPosV W Ps (headPos k) 0 m)[j]? = some b → ∀ q ∈ a, q ∉ b) := by
+  refine ⟨?_, ?_⟩
+  · intro i ps hps
+    have hmem : ps ∈ chunkPosV W Ps (headPos k) 0 m := List.mem_of_getElem? hps
+    refine ⟨chunkPosV_length W Ps _ 0 m hPs i ps hps,
+      (chunkPosV_pairwise W Ps _ 0 m hPs (headPos_ok k 0).1 (headPos_ok k 0).2).2 ps hmem, ?_⟩
+    intro q hq
+    rcases chunkPosV_valid W Ps _ 0 m hPs ps hmem q hq with h | ⟨j, t, rfl, _, h2, h3⟩
+    · obtain ⟨t, ht, rfl⟩ := mem_seg.mp h
+      exact Or.inl ⟨0 + t, rfl, by omega⟩
+    · exact Or.inr ⟨j, t, rfl, by omega, h3⟩
+  · intro i j a b hij ha hb
+    exact chunkPosV_disjoint hPs (headPos_ok k 0).1 (headPos_ok k 0).2 hij ha hb
+
+/-- **Schedules that stop early, and where they stop.**  Run any schedule of decode steps and
+    precision changes (`runDecE`: log of what was done + the error of the first failing step).
+    The decoded symbols are a prefix of `zipWith (m.dec ·).1 chunks models`, the chunks being
+    spelled by the data bits at `chunkPosV W Ps (headPos k) 0 m`; a decode step fails only
+    with `OutOfCompressedData`, and exactly after `(chunkPosV …).length` symbols – a number
+    that depends on the data only through its shape `(k, m)`; a precision change fails only
+    with `OutOfRemainders`. -/
+theorem schedule_runs_out {c : Cfg} (hc : c.Valid) (steps : List (Step Sym)) (x : Coder)
+    (hs : StepsOk c steps) (hx : Inv c x) {k : Nat}
+    (hlo : 2^k ≤ x.heads.compressed) (hhi : x.heads.compressed < 2^(k + 1)) :
+    logSyms (runDecE c steps x).1 =
+      (List.zipWith (fun q m => (m.dec q).1)
+        ((chunkPosV c.W (decPrecs c.P steps) (headPos k) 0 x.compressed.length).map
+          (valOf (bitOf x.heads.compressed x.compressed)))
+        (decModels steps)).take (logSyms (runDecE c steps x).1).length ∧
+    (∀ e, (runDecE c steps x).2.2.2 = some (.inl e) → e = .outOfData ∧
+      (logSyms (runDecE c steps x).1).length =
+        (chunkPosV c.W (decPrecs c.P steps) (headPos k) 0 x.compressed.length).length) ∧
+    (∀ e, (runDecE c steps x).2.2.2 = some (.inr e) → e = .outOfRemainders) ∧
+    ((runDecE c steps x).2.2.2 = none →
+      (logSyms (runDecE c steps x).1).length = (decModels steps).length) := by
+  have hP := (CValid.of_valid hc).precOk
+  obtain ⟨h1, h2, h3, h4⟩ := locality_scheduleE steps c x hP hs hx
+  obtain ⟨e1, _, _⟩ := quantilesV_flip (c := c) (decPrecs c.P steps) (decPrecs_ok steps c hs)
+    hlo hhi hx.1.2.1 hx.2.1 hlo hhi hx.1.2.1 hx.2.1 rfl 0 (fun _ _ => rfl)
+  rw [e1] at h1 h2
+  refine ⟨h1, ?_, h3, fun h => (h4 h).2⟩
+  intro e he
+  obtain ⟨a, b, _⟩ := h2 e he
+  exact ⟨a, by simpa using b⟩
+
+/-- **Flipping bits inside chunk `j`, per-symbol precisions.**  Two coders with data of the same
+    shape that agree on every bit outside `chunkPosV …[j]`, run through the same schedule: every
+    symbol at a position `i ≠ j` that both runs reach is the same, and if either run stops
+    with `OutOfCompressedData` it does so after the same number of symbols as the other would. -/
+theorem flip_bits_in_chunk_schedule {c : Cfg} (hc : c.Valid) (steps : List (Step Sym)) (x x' : Coder)
+    (hs : StepsOk c steps) (hx : Inv c x) (hx' : Inv c x') {k : Nat}
+    (hlo : 2^k ≤ x.heads.compressed) (hhi : x.heads.compressed < 2^(k + 1))
+    (hlo' : 2^k ≤ x'.heads.compressed) (hhi' : x'.heads.compressed < 2^(k + 1))
+    (hlen : x.compressed.length = x'.compressed.length) (j : Nat)
+    (hsame : ∀ q,
+      q ∉ ((chunkPosV c.W (decPrecs c.P steps) (headPos k) 0 x.compressed.length)[j]?).getD [] →
+      bitOf x.heads.compressed x.compressed q = bitOf x'.heads.compressed x'.compressed q) :
+    (∀ (i : Nat) (s s' : Sym), i ≠ j → (logSyms (runDecE c steps x).1)[i]? = some s →
+      (logSyms (runDecE c steps x').1)[i]? = some s' → s = s') ∧
+    (∀ e e', (runDecE c steps x).2.2.2 = some (.inl e) → (runDecE c steps x').2.2.2 = some (.inl e') →
+      (logSyms (runDecE c steps x).1).length = (logSyms (runDecE c steps x').1).length) := by
+  have hP := (CValid.of_valid hc).precOk
+  obtain ⟨a1, a2, _, _⟩ := locality_scheduleE steps c x hP hs hx
+  obtain ⟨b1, b2, _, _⟩ := locality_scheduleE steps c x' hP hs hx'
+  obtain ⟨e1, e2, hq⟩ := quantilesV_flip (c := c) (decPrecs c.P steps) (decPrecs_ok steps c hs)
+    hlo hhi hx.1.2.1 hx.2.1 hlo' hhi' hx'.1.2.1 hx'.2.1 hlen j hsame
+  refine ⟨?_, ?_⟩
+  · intro i s s' hij hs1 hs2
+    rw [a1] at hs1
+    rw [b1] at hs2
+    -- both are entries of the `zipWith` lists, which agree at `i`
+    have t1 : ∀ {l : List Sym} {n : Nat} {v : Sym}, (l.take n)[i]? = some v → l[i]? = some v := by
+      intro l n v h
+      rw [List.getElem?_take] at h
+      split at h
+      · exact h
+      · cases h
+    have z1 := t1 hs1
+    have z2 := t1 hs2
+    rw [List.getElem?_zipWith] at z1 z2
+    rw [hq i hij] at z1
+    rw [z1] at z2
+    injection z2
+  · intro e e' he he'
+    rw [(a2 e he).2.1, (b2 e' he').2.1, e1, e2]
+    simp
 
 /-- **Per-symbol precision.**  For a schedule of decode steps and `change_precision` calls that
     runs to completion, the decoded symbols are
@@ -293,5 +397,8 @@ end CV.Chain.C14
 #print axioms CV.Chain.C14.flip_bits_in_chunk
 #print axioms CV.Chain.C14.fresh_coder_data
 #print axioms CV.Chain.C14.locality_schedule_literal
+#print axioms CV.Chain.C14.chunk_structureV
+#print axioms CV.Chain.C14.schedule_runs_out
+#print axioms CV.Chain.C14.flip_bits_in_chunk_schedule
 #print axioms CV.Chain.C14.chunks_word_aligned
 #print axioms CV.Chain.C14.chunks_bounded
